@@ -312,7 +312,7 @@ def s1_discriminant():
                 tag = '%s/%s/%s' % (rtag, dtag, '+'.join(ts))
                 names = 'ABCDEF'
                 if 'Ord' not in ts:
-                    yield 'disc/dense_unit_inc/' + tag, en('E', [variant(names[k], disc=p6[k]) for k in range(6)] + [variant('G', 'Unit', [], [sub('incomparable')])], ra + [dw(ts)])
+                    yield 'disc/dense_unit_inc/' + tag, en('E', [variant(names[k], disc=p6[k]) for k in range(6)] + [variant('G', 'Unit', [], [sub('incomparable')], disc=lit(100))], ra + [dw(ts)])
                 yield 'disc/dense_unit/' + tag, en('E', [variant(names[k], 'Unit', [], [sub('default')] if k == 1 else [], disc=p6[k]) for k in range(6)], ra + [dw(ts + ['Default'])])
                 if rs is not None and 'Copy' not in ts:
                     yield 'disc/dense_data/' + tag, en('E', [variant(names[k], *(('Unnamed', unnamed(1, [['T']])) if k in (0, 3) else ('Unit', [])), disc=p6[k]) for k in range(6)], ra + [dw(ts)])
@@ -1053,6 +1053,18 @@ def random_item2(rng):
     return it
 
 
+def duplicate_discriminant(it):
+    """an enum whose discriminant values (Rust's numbering) are not distinct is not valid Rust (E0081): a generator mistake"""
+    k = it['kind']
+    if k[0] != 'Enum':
+        return False
+    vals, prev = [], None
+    for v in k[1]:
+        prev = v['disc'][1] if v['disc'] is not None else (0 if prev is None else prev + 1)
+        vals.append(prev)
+    return len(set(vals)) != len(vals)
+
+
 def quick_corpus(seed):
     out = []
     seen = set()
@@ -1060,5 +1072,7 @@ def quick_corpus(seed):
         if cid in seen:
             raise RuntimeError('duplicate case id ' + cid)
         seen.add(cid)
+        if duplicate_discriminant(it) and not cid.startswith(('rand', 'inv/')):
+            raise RuntimeError('corpus item %s has a duplicate discriminant value' % cid)
         out.append((cid, it))
     return out
